@@ -338,6 +338,7 @@ package raft
 //@   ensures [I11] r.operationManager != nil && r.operationManager.leaderLease != nil && r.operationManager.pendingReplicated != nil && r.operationManager.pendingReadOnly != nil && (forall o *Operation :: o in r.operationManager.pendingReadOnly ==> o != nil)
 //@   ensures [manager] r.state == old(r.state) ==> r.operationManager == old(r.operationManager)
 //@   ensures [tables-empty-on-stepdown] old(r.state) == Leader && r.state != Leader ==> (forall k uint64 :: !(k in r.operationManager.pendingReplicated)) && (forall o *Operation :: !(o in r.operationManager.pendingReadOnly))
+//@   ensures [config-future-kept] r.configurationResponseCh == old(r.configurationResponseCh)
 //@   ensures [tables-kept] r.state == old(r.state) ==> (forall k uint64 :: (k in r.operationManager.pendingReplicated) == old(k in r.operationManager.pendingReplicated)) && (forall o *Operation :: (o in r.operationManager.pendingReadOnly) == old(o in r.operationManager.pendingReadOnly))
 //@   ensures [answered-mono] forall c int :: old(answered[c]) ==> answered[c]
 //@   ensures [clock] now >= old(now)
@@ -790,10 +791,6 @@ package raft
 //@ ghost fPos map[int]int
 //@ ghost fSynced map[int]bool
 //@ ghost fClosed map[int]bool
-// tornTail: the bytes after the last complete record on disk are a strict, non-empty prefix of one
-// record (what a crash in the middle of an append leaves behind).
-//@ ghost tornTail bool
-//@ threadlocal g.tornTail
 
 //@ extern os.File.Seek(offset, whence) (pos, err)
 //@   modifies fPos
@@ -842,11 +839,14 @@ package raft
 //@   ensures err == nil ==> fPos[w] > old(fPos[w]) + 4
 //@   ensures !fSynced[w]
 //@   ensures forall g int :: g != w ==> fPos[g] == old(fPos[g]) && fSynced[g] == old(fSynced[g])
-// decodeLogEntry reads the next record; io.EOF exactly at a clean end, any other error for a torn
-// record (header 1-3 bytes, or body shorter than announced) - except the header-only tail, see F5.
+// decodeLogEntry reads the next record. A-PREFIX (the crash model of C12): the file consists of
+// complete records followed by a byte prefix of one record, so with healthy I/O the only failures
+// are io.EOF (nothing left, or only a complete header whose body is missing) and
+// io.ErrUnexpectedEOF (header of 1-3 bytes, or body shorter than announced). The codec itself
+// (protobuf, encoding/binary) is trusted; bounded stand-ins: codecs.bounded, tornprefix.bounded.
 //@ func decodeLogEntry
 //@   flags trusted
-//@   ensures tornTail ==> (err == nil || !iserr(err, io.EOF))
+//@   ensures [A-PREFIX] ioOK ==> err == nil || iserr(err, io.EOF) || iserr(err, io.ErrUnexpectedEOF)
 
 //@ func persistentLog.AppendEntries
 //@   flags lockheld
@@ -904,7 +904,10 @@ package raft
 //@ func persistentLog.Replay
 //@   flags lockheld
 //@   requires l.file != nil
-//@   ensures [torn-tail] tornTail && ioOK ==> err == nil
+//@   ensures [reopen-succeeds] ioOK ==> err == nil
+//@   ensures [nonempty] err == nil ==> len(l.entries) >= 1
+//@   at call l.file.Truncate assert [truncate-at-last-complete] arg0 == end
+//@   at call l.file.Seek assert [continue-at-truncation-point] arg0 == end && arg1 == 0
 
 // ===========================================================================================
 // C13: term/vote storage and snapshot storage (write-temp-then-rename protocol)
